@@ -200,8 +200,10 @@ def run(chk):
     # ---- density_scatter, discrete
     for _ in range(15 if not thorough else 150):
         n = rng.randint(1, 15)
-        x = [rng.randint(0, 3) for _ in range(n)]
-        y = [rng.randint(0, 3) for _ in range(n)]
+        grid = rng.choice(["nonneg", "signed", "half"])
+        coord = (lambda: rng.randint(0, 3)) if grid == "nonneg" else ((lambda: rng.randint(-3, 3)) if grid == "signed" else (lambda: rng.randint(-4, 6) / 2))
+        x = [coord() for _ in range(n)]
+        y = [coord() for _ in range(n)]
         fig, ax = plt.subplots()
         real = core.call_real(lambda: pl.density_scatter(x, y, ax=ax, discrete=True))
         chk.case(nontrivial_key=("scatter", tuple(x), tuple(y)))
@@ -210,10 +212,10 @@ def run(chk):
             chk.violation(f"C19|density_scatter|raises-{real[1]}", "density_scatter raised", {"x": x, "y": y})
         else:
             sc = ax.collections[0]
-            pts = [tuple(int(v) for v in p) for p in sc.get_offsets().tolist()]
+            pts = [tuple(float(v) for v in p) for p in sc.get_offsets().tolist()]
             cols = [int(v) for v in np.asarray(sc.get_array()).tolist()]
             from collections import Counter
-            cnt = Counter(zip(x, y))
+            cnt = Counter((float(a), float(b)) for a, b in zip(x, y))
             if sorted(pts) != sorted(cnt) or len(pts) != len(set(pts)) or any(cnt[p] != c for p, c in zip(pts, cols)) or cols != sorted(cols):
                 chk.violation("C19|density_scatter|differs", "discrete density_scatter does not draw each distinct point once, coloured by its multiplicity", {"x": x, "y": y})
         plt.close(fig)
